@@ -3,6 +3,7 @@ disjoint operands).  CBMC cannot execute threads on this code base (DESIGN F19):
 is NOT encoded.  Decided instead, per entry point, by dynamic frame-condition checking (goto-instrument
 --dfcc): every assignment and every free reachable from the call is proven to target the operands'
 storage, memory allocated during the call, or the stack."""
+REPLAYABLE = False  # stubs / instrumented program: counterexamples are reported from the solver trace, not re-linked against gcc
 BOUNDS = {
  "quick": "thread-safe configuration (ENABLE_MMC=0, ENABLE_MZD_CACHE=0); entry points: add, naive / M4RM / Strassen-front-end products, transpose (shapes hitting the <=8, <=16, <=32, <64 and 64-block kernels), M4RI / PLUQ echelonisation, PLUQ, four TRSMs, solve, kernel, inversion + trtri, init/window/free + permutations + copy; concrete operand contents (the frame condition quantifies over writes, not data)",
  "thorough": "same entry points at larger shapes (Four-Russians TRSM, tables with k up to 5)",
